@@ -398,7 +398,7 @@ int main(int argc, char **argv) {
   o.note("C11 tier=" + std::string(argv[1]) + " seed=" + argv[2]);
 
   // 1. random trees: encoder correspondence + direct round trip + full geometry round trips
-  int ntrees = thorough ? 12000 : 1500;
+  int ntrees = thorough ? 12000 : 2500;
   for (int i = 0; i < ntrees; i++) {
     int maxdepth = 0;
     std::unique_ptr<GeometryMetadata> g = gen_geom(r, maxdepth);
@@ -413,6 +413,21 @@ int main(int argc, char **argv) {
       for (int j = 0; j < c; j++) { std::unique_ptr<Metadata> s2(new Metadata()); s2->AddEntryInt("", j); s->AddSubMetadata(std::string(j, 'z'), std::move(s2)); }
       g.AddSubMetadata(std::string(1, (char)(0xff - i)), std::move(s)); }
     menc_case(o, r, g, 2, true);
+  }
+  // large values and longest legal names, explicitly (varint length boundaries of data_size)
+  {
+    static const size_t sizes[] = {127, 128, 16383, 16384, 65535, 65536};
+    for (int i = 0; i < 6; i++) {
+      GeometryMetadata g;
+      std::vector<uint8_t> v(sizes[i]); for (auto &b : v) b = (uint8_t)r.next();
+      g.AddEntryBinary(std::string(255, (char)0xfe), v);
+      g.AddEntryBinary(std::string(254, (char)0xfe), std::vector<uint8_t>(1, 0));
+      std::unique_ptr<Metadata> s2(new Metadata()); s2->AddEntryBinary("", v);
+      g.AddSubMetadata(std::string(255, (char)0x00), std::move(s2));
+      std::unique_ptr<AttributeMetadata> a(new AttributeMetadata()); a->set_att_unique_id(0xffffffffu); a->AddEntryBinary("v", v);
+      g.AddAttributeMetadata(std::move(a));
+      menc_case(o, r, g, 1, i % 2 == 1);
+    }
   }
   // 2. deep chains around the decoder's nesting limit (few: each is ~1000 nested objects)
   {
